@@ -245,4 +245,17 @@ CHECKS['C20'] = dict(
     assumptions=['the VOL block length field has 31 bits, so the largest member is 2^31-1 bytes'],
 )
 
+CHECKS['C18'] = dict(
+    src='checks/c18_determinism.cpp',
+    runs=[dict(cfg='plain')],
+    prebuild=['fill0', 'fillfe', 'fillaa', 'vg'],
+    technique='environment enumeration: the same scenario set executed in fresh processes over the product of heap fill x stack fill (three -ftrivial-auto-var-init builds) x ASLR x allocation pre-shift, plus a valgrind memcheck definedness run',
+    level_text='About 60 outputs in 45 groups (VOL creation from 5 list orders / path spellings, empty and 4-member volumes, listing and extraction, LZH extraction, CLM creation in two orders, empty CLM, extracted WAV, default-constructed Map written as a temporary and as a declared object, three reference maps parsed / written / edited, saved games parsed, factory bitmaps of every depth incl. their header objects, partial-palette bitmap rewritten and flipped, custom tileset from both orientations and reloaded, ArtFile written as a temporary / declared / as the suite fixture builds it, a PRT file parsed and rewritten, DynamicMemoryWriter zero fill, FileWriter) are produced in fresh processes in 12 (thorough: all 36) environments = heap fill {0x00,0xAA,0xFF} x fresh-stack fill {0x00 (gcc zero), 0xFE (gcc pattern), 0xAA (clang pattern)} x address-space randomisation {on,off} x allocation pre-shift {0, 1 page}. Every output must be byte-identical to the baseline environment, identical within its group of logically equal inputs, and equal to the reference model where one exists. One run under valgrind memcheck (heap left unfilled) with VALGRIND_CHECK_MEM_IS_DEFINED on every output buffer and syscall parameter checks: zero definedness reports.',
+    level_note='Two address-space layouts are compared, not all; a value that depended on an address in a way both layouts agree on would be missed. Memcheck V-bits stand for all garbage values at once; the concrete environments cross-check that what memcheck calls defined is also deterministic. Trusts valgrind 3.19, gcc/clang -ftrivial-auto-var-init, setarch -R.',
+    rule='state = one execution environment; transitions = scenario-set executions; outcomes = distinct (output, digest) pairs',
+    bounds={'quick': '12 environments + valgrind', 'thorough': '36 environments + valgrind'},
+    must_hit={'any': ['environments/concrete', 'environments/valgrind', 'outputs/compared', 'outputs/with-reference-prediction']},
+    assumptions=['inputs of every scenario are fully initialised by the harness'],
+)
+
 NOT_APPLICABLE = {}
